@@ -397,7 +397,7 @@ class C24(UICheck):
                 for steps in (0, 1, 3):
                     session(kind, [cmd("", ["entry"]), cmd("", ["e"])] + [cmd("", ["s"])] * steps + [relr(0), relr(1), relr(3)] +
                             [cmd("", ["memory", key]), relr(0), relr(1), relr(2), relr(4), cmd("", ["q"]), relr(0), cmd("", ["q"]), relr(0), relr(2)])
-        layouts = [[], [[0, 8]], [[5, 8]], [[0, 8], [64, 4]], [[16, 8], [24, 8], [32, 8]], [[0, 8], [4096, 8], [65536, 2]],
+        layouts = [[], [[0, 8]], [[5, 8]], [[0, 8], [64, 4]], [[0, 4], [8, 2]], [[1, 1], [3, 1], [15, 1]], [[14, 1], [17, 2], [20, 1]], [[16, 8], [24, 8], [32, 8]], [[0, 8], [4096, 8], [65536, 2]],
                    [[i * 40, 8] for i in range(12)], [[8, 1], [300, 8], [301, 2]]]
         for nregs in range(0, 34):
             for withip in (False, True):
